@@ -91,6 +91,25 @@ def handle (inp out : String) : String :=
       | some why => s!"specfail {cls} {why}"
       | none => if ms == out then s!"ok {cls}" else s!"diff {cls} model={ms}"
     | _, _ => "skip bad-tcp-args"
+  | ["btcp", reqHex, sends, streamHex, recvs, conn] =>
+    match ofHex reqHex, ofHex streamHex with
+    | some req, some stream =>
+      let rs : List BRecv := if recvs == "-" then [] else (recvs.splitOn ".").map fun x =>
+        if x == "z" then .closed else if x == "w" then .timeout else if x == "x" then .error else .data (x.toNat?.getD 1)
+      let (st, wire, resp) := blockingExchange req (parseSends sends) stream rs (conn == "y")
+      let ms := s!"{st} {toHex wire} {match resp with | some r => toHex r | none => "-"}"
+      let spec : Option String :=
+        match words out with
+        | ["0", w, r] =>
+          if w != toHex req then some "success-although-the-request-did-not-reach-the-wire-whole"
+          else if (specSplit stream).head?.map toHex != some r then some "response-is-not-the-first-complete-element-of-the-stream"
+          else none
+        | [_, w, _] => if !(toHex req).startsWith (if w == "-" then "" else w) then some "wire-bytes-are-not-a-prefix-of-the-request" else none
+        | _ => some "short-impl-output"
+      match spec with
+      | some why => s!"specfail btcp:{st} {why}"
+      | none => if ms == out then s!"ok btcp:{st}" else s!"diff btcp:{st} model={ms}"
+    | _, _ => "skip bad-btcp-args"
   | _ => "skip unknown-op"
 
 def main : IO Unit := runDriver handle
